@@ -24,6 +24,11 @@ pub enum Case06 {
     /// one instance of `class` whose Ref-typed property `prop` (any spelling) points at 0 = a later sibling,
     /// 1 = an earlier sibling, 2 = itself, 3 = its child
     RefProp { class: String, prop: String, target: u8 },
+    /// a value of a narrower numeric type than the property declares (Int32 for Int64, Float32 for
+    /// Float64): both crates widen (rbx_xml tests it as `number_widening`), and the widening is
+    /// exact, so the two read-backs must still agree. This goes beyond the quantifier's "values of
+    /// the declared type" and is restricted to the conversions both crates implement.
+    Widen { class: String, prop: String, value: usize },
     /// one instance carrying two properties (any two reachable spellings that are not the same
     /// property); value indices follow `i`
     Pair { class: String, p: String, q: String, i: usize },
@@ -344,6 +349,22 @@ pub fn judge(c: &Case06) -> Vec<(String, String)> {
             let dom = WeakDom::new(InstanceBuilder::new("DataModel").with_child(b));
             judge_dom(&dom, &set, "all-at-once", &format!("{} with all properties, value index {}", class, i))
         }
+        Case06::Widen { class, prop, value } => {
+            let narrow = match declared_type(class, prop) {
+                Some(VariantType::Int64) => VariantType::Int32,
+                Some(VariantType::Float64) => VariantType::Float32,
+                _ => return vec![],
+            };
+            let a = value_alphabet(narrow);
+            let v = match a.get(*value) {
+                Some(v) => v.clone(),
+                None => return vec![],
+            };
+            let dom = WeakDom::new(InstanceBuilder::new("DataModel").with_child(InstanceBuilder::new(class.as_str()).with_name("w").with_property(prop.as_str(), v)));
+            let mut set = BTreeSet::new();
+            set.insert(canonical_of(class, prop));
+            judge_dom(&dom, &set, &format!("widen|{:?}", narrow), &format!("{}.{} given value #{} of {:?}", class, prop, value, narrow))
+        }
         Case06::Pair { class, p, q, i } => {
             let (tp, tq) = match (declared_type(class, p), declared_type(class, q)) {
                 (Some(a), Some(b)) => (a, b),
@@ -481,6 +502,20 @@ pub fn cases(tier: Tier) -> Vec<Case06> {
             if canonical_of(class, prop) != *prop && declared_type(class, prop) != Some(VariantType::Ref) {
                 for alias_first in [false, true] {
                     extra.push(Case06::Two { class: class.clone(), alias: prop.clone(), alias_first });
+                }
+            }
+        }
+    }
+    for c in &out {
+        if let Case06::Single { class, prop, value: 0 } = c {
+            let narrow = match declared_type(class, prop) {
+                Some(VariantType::Int64) => Some(VariantType::Int32),
+                Some(VariantType::Float64) => Some(VariantType::Float32),
+                _ => None,
+            };
+            if let Some(n) = narrow {
+                for value in 0..value_alphabet(n).len() {
+                    extra.push(Case06::Widen { class: class.clone(), prop: prop.clone(), value });
                 }
             }
         }
